@@ -242,4 +242,23 @@ theorem T19_ibmq_two_digit_pair_example :
             .gate ⟨2, 10, [1, 0], false, false⟩, .chan .depol (.depol 1) [0, 1]] := by
   decide
 
+/-! ### a rule restricted to no qubit -/
+
+/-- **A rule whose qubit restriction is the EMPTY collection never applies** (`qubits=()`, `[]`,
+`range(0)`, `set()` …: the intersection with the qubits of every gate is empty) — it is not the
+same as a rule without restriction (`qubits=None`), which applies to every instance of the gate. -/
+theorem T19_empty_filter (i : Nat) (r : Rule) (g : NGate) (h : r.qubits = some []) :
+    ruleChannels i r g = [] := by
+  have hs : setInter g.qubits [] = [] := by simp [setInter]
+  unfold ruleChannels ruleQubits
+  rw [h]
+  simp [hs]
+
+/-- … whereas the unrestricted rule with the same error does create its channels (here: a
+depolarizing rule on a one-qubit gate). -/
+theorem T19_no_filter_applies :
+    ruleChannels 0 ⟨none, .depol, none, []⟩ ⟨0, 0, [2], false, false⟩ = [Item.chan 0 .depol [2]]
+      ∧ ruleChannels 0 ⟨none, .depol, some [], []⟩ ⟨0, 0, [2], false, false⟩ = [] := by
+  decide
+
 end QV.Props.C19
